@@ -166,7 +166,7 @@ def run(ctx, name, kind, **kw):
     if kind == "toy":
         from vf import toy
         t = toy.toy(*kw["key"])
-        curve, dom = sigs.toy_lib_curve(t)
+        curve, dom = sigs.toy_lib_curve_legacy(t) if sum(kw["key"]) % 2 else sigs.toy_lib_curve(t)      # every second one: legacy affine Point as base point
         n = dom.n
         check_bad_secexp(ctx, curve, n)
         evs = sorted(set(list(range(0, 256, max(1, 256 // kw["ndig"]))) + [0, 1, n - 1, n, n + 1, 255, 128, 127]))
